@@ -323,8 +323,9 @@ Fixpoint remove_key (k : string) (l : list (string * dsnap)) : list (string * ds
 Definition remove_s (k : string) (l : list string) : list string :=
   filter (fun x => negb (String.eqb k x)) l.
 
-(* Qube.insert_deriv, in the order of the code: check class and numerator; wod; as_float; match the
-   parent's read-only state; broadcast to the parent's shape; store under derivs[key] and d_d<key> *)
+(* Qube.insert_deriv, in the order of the code: check class and numerator; wod; as_float; broadcast
+   to the parent's shape; THEN match the parent's read-only state (the broadcast can build a new,
+   writable object); store under derivs[key] and d_d<key> *)
 Definition insert_deriv (t : cls -> clsinfo) (p : snapshot) (k : string) (d : snapshot) : option snapshot :=
   let pc := s_core p in
   if negb (ci_derivs (t (c_cls pc))) then None else
@@ -332,10 +333,10 @@ Definition insert_deriv (t : cls -> clsinfo) (p : snapshot) (k : string) (d : sn
   match as_float_core t (s_core d) with
   | None => None
   | Some d1 =>
-    let d2 := if c_ro pc && negb (c_ro d1) then freeze d1 else d1 in
-    match broadcast_core d2 (c_shape pc) with
+    match broadcast_core d1 (c_shape pc) with
     | None => None
-    | Some d3 =>
+    | Some d2 =>
+      let d3 := if c_ro pc && negb (c_ro d2) then freeze d2 else d2 in
       Some (mksnap pc (remove_key k (s_derivs p) ++ [(k, mkdsnap d3 false true [])])
                    (remove_s k (s_dattrs p) ++ [k]))
     end
@@ -426,15 +427,11 @@ Fixpoint run_ops (t : cls -> clsinfo) (s : snapshot) (l : list op) : option snap
   | o :: l' => match apply_op t s o with Some s' => run_ops t s' l' | None => None end
   end.
 
-(* Guards of the preservation theorems.  The code as it is now lets a READ-ONLY SHAPELESS parent
-   with item () take a derivative of another shape: the derivative is "broadcast" to () by taking
-   its first element, which yields a fresh object that is not read-only (see C05_insert_collapse_refuted).
-   [ins_guard] excludes exactly that region; a derivative argument must itself be a well-formed core. *)
-Definition ins_guard (pc dc : core) : bool :=
-  negb (c_ro pc && is_nil (c_shape pc) && negb (is_nil (c_shape dc)) && is_nil (c_numer dc ++ c_denom dc)).
+(* Guard of the preservation theorems: a derivative handed to insert_deriv must itself be a
+   well-formed core (any class, kind, shape, flags; it may carry derivatives of its own). *)
 Definition op_guard (t : cls -> clsinfo) (s : snapshot) (o : op) : bool :=
   match o with
-  | OInsertDeriv k d => wf_core t (s_core d) && ins_guard (s_core s) (s_core d)
+  | OInsertDeriv k d => wf_core t (s_core d)
   | _ => true
   end.
 Fixpoint ops_guard (t : cls -> clsinfo) (s : snapshot) (l : list op) : bool :=
